@@ -75,7 +75,10 @@ def build(case):
         x = _vec(seed, n, cplx).astype(dt)
         if not np.abs(H @ x).any():
             x = (B[:, 0] + 0).astype(dt)
-        alg = sp.alg.PowerMethod(lambda v: H @ v, x, max_iter=mi)
+        nf = None
+        if case.get("norm_func"):
+            nf = (lambda v: float(np.sqrt(np.sum(np.abs(v) ** 2))))     # the l2 norm, supplied by the user
+        alg = sp.alg.PowerMethod(lambda v: H @ v, x, norm_func=nf, max_iter=mi)
         return alg, (lambda: [alg.x]), nobreak, {"H": H}
     if k == "GradientMethod":
         Am = _mat(seed, m, n, cplx)
@@ -198,7 +201,11 @@ def build(case):
             # convex, non-quadratic: Newton needs several updates and its decrement shrinks gradually
             gradf = (lambda v: H @ v - b + v ** 3)
             inv_hess = (lambda v: (lambda w, _v=v: np.linalg.solve(H + 3 * np.diag(_v ** 2), w)))
-            alg = sp.alg.NewtonsMethod(gradf, inv_hess, x, max_iter=mi, tol=0)
+            kw = {}
+            if case.get("beta", 1) < 1:
+                # backtracking line search on the same objective
+                kw = {"beta": case["beta"], "f": (lambda v: float(0.5 * v @ H @ v - b @ v + np.sum(v ** 4) / 4))}
+            alg = sp.alg.NewtonsMethod(gradf, inv_hess, x, max_iter=mi, tol=0, **kw)
         else:
             alg = sp.alg.NewtonsMethod(lambda v: H @ v - b, lambda v: (lambda w: Hi @ w), x, max_iter=mi, tol=0)
         return alg, (lambda: [alg.x]), nobreak, {}
@@ -348,6 +355,7 @@ def st_instance(draw, kinds=ALG_KINDS, max_iter=st.integers(0, 12)):
          "m": draw(st.integers(1, 5)), "cplx": draw(st.booleans())}
     if k == "PowerMethod":
         c["rankdef"] = draw(st.integers(0, 2))
+        c["norm_func"] = draw(st.booleans())
     if k == "GradientMethod":
         c.update(g=draw(st.sampled_from(["none", "l1", "l1", "box", "box"])), accelerate=draw(st.booleans()),
                  c=draw(st.sampled_from([1.0, 0.5, 0.25, 0.125])), mu=draw(st.sampled_from([0.25, 1.0, 4.0, 16.0])),
@@ -368,7 +376,7 @@ def st_instance(draw, kinds=ALG_KINDS, max_iter=st.integers(0, 12)):
             c["accel"] = None
     if k == "Newton":
         c.update(x0=draw(st.sampled_from(["zeros", "rand"])), b=draw(st.sampled_from(["rand", "zero"])),
-                 f=draw(st.sampled_from(["quadratic", "quartic", "quartic"])))
+                 f=draw(st.sampled_from(["quadratic", "quartic", "quartic"])), beta=draw(st.sampled_from([1, 1, 0.5, 0.8])))
         c["cplx"] = False
     if k in ("AltMin", "ALM", "ADMM", "SDMM"):
         c["cplx"] = False
@@ -481,7 +489,8 @@ def check_early(case):
 @st.composite
 def st_power(draw):
     return {"alg": "PowerMethod", "max_iter": draw(st.integers(2, 30)), "seed": draw(st.integers(0, 10 ** 6)),
-            "n": draw(st.integers(1, 6)), "cplx": draw(st.booleans()), "rankdef": draw(st.integers(0, 3))}
+            "n": draw(st.integers(1, 6)), "cplx": draw(st.booleans()), "rankdef": draw(st.integers(0, 3)),
+            "norm_func": draw(st.booleans())}
 
 
 def check_power(case):
